@@ -74,6 +74,16 @@ func oracleC16(res *RunResult) []Violation {
 			} else {
 				none = true
 			}
+			if len(r.Fired) > 0 {
+				// the store failed while this read was served: an error (500, a client error that is not "does not exist") is
+				// the honest answer; anything else must still be right, so fall through unless it is that
+				if r.Op.B == 0 && r.HErr == nil && r.HStatus == 500 {
+					continue
+				}
+				if r.Op.B != 0 && r.CErr != nil && !errors.Is(r.CErr, os.ErrNotExist) {
+					continue
+				}
+			}
 			if r.Op.B == 0 {
 				if r.NetFault != "" {
 					continue // raw GETs under a network fault prove nothing about the handler
@@ -135,6 +145,9 @@ func oracleC16(res *RunResult) []Violation {
 				}
 			}
 		case "getlist":
+			if len(r.Fired) > 0 && r.HErr == nil && r.HStatus == 500 {
+				continue // the store failed while the list was read: 500 is the honest answer (a partial list with 200 is not)
+			}
 			if r.HErr != nil || r.HStatus != 200 {
 				add("loglist_mismatch", "failed", r.Idx, fmt.Sprintf("GET of the log list: status %d err %v", r.HStatus, r.HErr))
 				continue
@@ -205,7 +218,7 @@ func init() {
 				// SQLite with faults inside the database driver: after a refused write the API must still serve the committed state
 				p.Cfg.Store, p.Cfg.Seam, p.Cfg.Clients, p.Cfg.Strategy = "sqlite", "driver", 1, "uniform"
 				for occ := 0; occ < 4*len(p.Ops); occ++ {
-					for _, call := range []string{"drv.Exec", "drv.Commit", "drv.Rollback"} {
+					for _, call := range []string{"drv.Exec", "drv.Commit", "drv.Rollback", "drv.Query", "drv.Next", "drv.Next"} {
 						if r.Chance(0.06) {
 							p.Faults = append(p.Faults, Fault{At: fmt.Sprintf("c0:%s#%d", call, occ), Kind: drvKind(r)})
 						}
